@@ -245,7 +245,7 @@ class DiskFile(VirtualFileContainer):
 
         for file_name_pointer in range(pointer, pointer + length):
             sequence.append(self.buffer[file_name_pointer])
-        return bytearray(sequence).decode("utf-8") if decode else sequence
+        return bytearray(sequence).decode("latin-1") if decode else sequence
 
     def validate_sequence(self, pointer, sequence):
         """
